@@ -794,5 +794,17 @@ def rule_invalidate(ctx):
     return r
 
 
-RULES = [rule_invalidate, rule_keycomp, rule_keyinj, rule_keyspace, rule_unhash, rule_identity, rule_memo, rule_stateless,
+def rule_retained(ctx):
+    """Shared with C16-FRESH (seed C13_12): below the path / expression caches sit the optimizers the preset
+    strings resolve to; a result-carrying optimizer that is registered as a singleton or parked in module state
+    hands one contraction's best tree to the next query through the same preset string — for cached and uncached
+    calls alike."""
+    from .c16 import rule_fresh as src
+
+    return C.reuse_rule(ctx, src, "C16-FRESH", "C13-RETAINED",
+                        "preset strings never resolve to an optimizer that remembers an earlier contraction",
+                        lambda i: "registration:" in i.construct or "parked:" in i.construct, 3)
+
+
+RULES = [rule_retained, rule_invalidate, rule_keycomp, rule_keyinj, rule_keyspace, rule_unhash, rule_identity, rule_memo, rule_stateless,
          rule_whitelist, rule_dispatch, rule_hidden, rule_reusable]
